@@ -673,6 +673,48 @@ int kind_of(const std::string& id) // 0 regression, 1 single-label, 2 multi-labe
     return id.rfind("s-", 0) == 0 ? 1 : id.rfind("m-", 0) == 0 ? 2 : 0;
 }
 
+/// single-label losses on targets that are not one-positive patterns (several positives, none): such targets are outside
+/// the losses' documented use, so only the universal clauses are judged on them (the gradient is the derivative of
+/// the value, value-only == value, declared convexity, per-sample dependence) - not non-negativity, not the 0-1 rule
+std::vector<evec> loss_targets_off_class(const std::string& id, const int k)
+{
+    std::vector<evec> out;
+    if (!(id.rfind("s-", 0) == 0) || k < 2)
+    {
+        return out;
+    }
+    const auto push_mask = [&](const unsigned m)
+    {
+        int  npos = 0;
+        evec t(k);
+        for (int i = 0; i < k; ++i)
+        {
+            const bool pos = ((m >> (i % 16)) & 1U) != 0U;
+            t(i)           = pos ? 1.0 : -1.0;
+            npos += pos ? 1 : 0;
+        }
+        if (npos != 1 && !(npos == 0 && id == "s-classnll"))
+        {
+            out.push_back(t);
+        }
+    };
+    if (k <= 4)
+    {
+        for (unsigned m = 0; m < (1U << k); ++m)
+        {
+            push_mask(m);
+        }
+    }
+    else
+    {
+        for (const unsigned m : {0x3U, 0x5U, 0x1001U, 0x1fffU, 0x0ff0U, 0x0U})
+        {
+            push_mask(m);
+        }
+    }
+    return out;
+}
+
 std::vector<evec> loss_targets(const std::string& id, const int k)
 {
     std::vector<evec> out;
@@ -858,7 +900,8 @@ void stage_losses(report_t& r, const args_t& args)
     lat.axis("outputs", outputs.size(), jarr_num(outputs));
     lat.describe(r);
     r.axis("targets", jstr("regression: {-30,-0.7,1}^k (k<=4), 8 strided patterns (k=13); s-*: every one-positive pattern "
-                           "(k=1: +1 and -1, s-classnll +1 only); m-*: every +-1 pattern (k<=4), 8 fixed patterns (k=13)"));
+                           "(k=1: +1 and -1, s-classnll +1 only) under all clauses, plus every other +-1 pattern (k<=4; 6 fixed for k=13) "
+                           "under the universal clauses only (gradient = derivative, value-only == value, convexity, per-sample); m-*: every +-1 pattern (k<=4), 8 fixed patterns (k=13)"));
     r.axis("predictions", jstr(T ? "{-30,-5,-1,-0.3,-1e-3,1e-3,0.3,1,5,30}^k for k<=3; {-30,-1,-1e-3,1e-3,1,30}^4; 200 strided walks "
                                    "over the 6-value alphabet for k=13"
                                  : "{-30,-1,-1e-3,1e-3,1,30}^k for k<=3; 48 strided walks over the alphabet for k=13"));
@@ -891,7 +934,10 @@ void stage_losses(report_t& r, const args_t& args)
         }
         const int  kind    = kind_of(cfg.id);
         const auto one     = "losses:" + std::to_string(index);
-        const auto targets = loss_targets(cfg.id, k);
+        auto       targets  = loss_targets(cfg.id, k);
+        const auto njudged  = targets.size();
+        const auto offclass = loss_targets_off_class(cfg.id, k);
+        targets.insert(targets.end(), offclass.begin(), offclass.end());
         const auto preds   = loss_predictions(k, T);
         const auto dirs    = make_dirs(k, true);
         r.outcome(std::string("unit:") + (loss->convex() ? "declared-convex" : "declared-nonconvex") + (loss->smooth() ? "+smooth" : "+nonsmooth"));
@@ -899,9 +945,11 @@ void stage_losses(report_t& r, const args_t& args)
         std::vector<evec>   batch_t, batch_o;
         std::vector<double> alone_v, alone_e;
         std::vector<evec>   alone_g;
-        for (const auto& t : targets)
+        for (size_t it = 0; it < targets.size(); ++it)
         {
-            const auto tt = as_batch({t}, k);
+            const auto& t         = targets[it];
+            const bool  off_class = it >= njudged;
+            const auto  tt        = as_batch({t}, k);
             object_t   o;
             o.id       = cfg.id;
             o.desc     = cfg.name() + " outputs=" + std::to_string(k) + " target=" + show(t);
@@ -943,6 +991,11 @@ void stage_losses(report_t& r, const args_t& args)
                     return jobj({{"loss", jstr(cfg.name())}, {"target", show(t)}, {"prediction", show(preds[p])},
                                  {"value", jnum(e.f[p])}, {"error", jnum(err(0))}});
                 };
+                if (off_class)
+                {
+                    r.outcome("off-class-target:universal-clauses-only");
+                    continue;
+                }
                 // non-negativity
                 r.evaluations += 1;
                 r.nontrivial += 1;
